@@ -214,6 +214,9 @@ type AL_RECD = dict[str, AL_RECD] | None
 type AL_RECT = tuple[int, AL_RECT] | None
 
 LEAF_HASHABLE = [int, str, bool, float, type(None), None, T.Literal[1, 'a'], T.Literal[True], T.Literal[0, None],
+                 # literals that are == and hash-equal across types (True/1, False/0), in both orders; literals whose hashes
+                 # collide although they differ (hash(-1) == hash(-2))
+                 T.Literal[True, 1], T.Literal[1, True], T.Literal[False, 0, 'a'], T.Literal[-1], T.Literal[-2], T.Literal[-2, 'a'],
                  TV_BOUND, NT_INT, T.Optional[int], int | str, AL_INT, AL_UNION, AL_AL, AL_INT | None]
 LEAF_OTHER = [Proto, Box[int], Box[str], Box, Pair[int], Pair, T.Union[Box[int], Box[str]], T.Union[Box[str], Box[int], None], U0, U1, object, T.Any, type[int], type[U0], type[T.Any], A.Iterator[int], A.Callable[[int], str],
               A.Generator[int, None, None], A.ItemsView[str, int], T.List, TV_FREE, TV_CONSTR, NT_LIST, list, dict,
@@ -378,7 +381,8 @@ class ObjGen:
         if origin is T.Union or isinstance(h, types.UnionType):
             return self.make(r.choice(args), depth + 1, hashable)
         if origin is T.Literal:
-            return r.choice(args)
+            # mostly a listed value; otherwise a look-alike of listed values (== across types, colliding hashes)
+            return r.choice(args) if r.random() < 0.6 else r.choice([-1, -2, 1, True, 0, False, 'a', None])
         if origin is T.Annotated:
             if r.random() < 0.6:
                 from .model import VALE_REGISTRY
